@@ -134,6 +134,27 @@ InjectiveStep ==
     => PayloadValue(req) = PayloadValue(req')
 Injective == [][InjectiveStep]_mcvars
 
+\* ---- requests carrying several messages.  The specification of a multi-message request is the per-message
+\* specification applied to every message: the VAA of message i depends on message i only (FunctionOfRequest with
+\* env.before = "another request"), whatever was built before or is built after it.  The replay therefore needs
+\* histories in which a construction is FOLLOWED by others of the same / another kind whose payload is shorter,
+\* equal or longer: all ordered pairs (and some triples) over the nominal request of every kind plus short and long
+\* variants of the kinds with a variable tail.  They share the header (timestamp and set index belong to the request).
+Seq3(a, b, c) == Xs(<<a, b, c>>)
+TailVariants ==
+    {[Base.destroy_sequences EXCEPT !.echain = "00000002", !.seqs = Seq3("000000000000000b", "000000000000000c", "000000000000000d")],
+     [Base.destroy_sequences EXCEPT !.echain = "00000004", !.seqs = Xs(<<"0000000000000063">>)],
+     [Base.destroy_sequences EXCEPT !.seqs = Gen(40, "idx")],
+     [Base.contract_upgrade EXCEPT !.payload = B("00")], [Base.contract_upgrade EXCEPT !.payload = B(Bytes("ee", 200))],
+     [Base.bridge_contract_upgrade EXCEPT !.payload = B("01")], [Base.bridge_contract_upgrade EXCEPT !.payload = B(Bytes("ed", 200))],
+     [Base.guardian_set EXCEPT !.guardians = Keys(1)], [Base.guardian_set EXCEPT !.guardians = Keys(19)],
+     [Base.update_refund_address EXCEPT !.refund = B("00")], [Base.update_refund_address EXCEPT !.refund = B(Bytes("a1", 255))]}
+BatchElems == {Base[k] : k \in Kinds} \cup TailVariants
+Batches == {<<a, b>> : a, b \in BatchElems}
+           \cup {<<a, b, c>> : a, b, c \in {r \in TailVariants : r.kind = "destroy_sequences"}}
+           \cup {<<a, b, a, b>> : a \in {r \in TailVariants : r.kind # "destroy_sequences"}, b \in {Base.update_min_cl, Base.transfer_fee}}
+ASSUME \A b \in Batches : PrintT(<<"BATCH", ToJson(b)>>)
+
 \* ---- export for the replay on the real code and for the source extractor
 Expect(r) == IF Representable(r) THEN [class |-> "vaa", size |-> Size(r)] ELSE [class |-> "reject"]
 ASSUME \A r \in ExportDomain : PrintT(<<"REQ", ToJson([req |-> r, expect |-> Expect(r)])>>)
